@@ -39,7 +39,7 @@ func genLit(depth int) lit {
 		}
 		return lit{"false", "false"}
 	case 2:
-		n := []string{"1.5", "12345678901234567890.5", "0", "10", "-3"}[pick(vf.Param("nums", 2))]
+		n := []string{"1.5", "12345678901234567890.5", "9007199254740993", "-9223372036854775809", "0", "10", "-3"}[pick(vf.Param("nums", 2))]
 		return lit{n, n}
 	case 3:
 		return lit{"null", "null"}
@@ -286,5 +286,130 @@ func H_Same() {
 			}
 		}
 		vf.Assert(ok, "same-attributes-and-block-sequence")
+	}
+}
+
+
+// ---- blocks with several labels
+
+type lblock struct {
+	labels []string
+	x      string
+}
+
+// renderLabelled renders consecutive blocks as JSON properties at label depth d. With
+// merge, adjacent blocks that agree on the label at this depth share one property whose
+// value is the nested label object (or, below the last label, an array of bodies);
+// without it every block gets its own property (duplicate property names).
+func renderLabelled(bs []lblock, d, nl int, merge bool) string {
+	out := ""
+	for i := 0; i < len(bs); {
+		j := i + 1
+		if merge {
+			for j < len(bs) && bs[j].labels[d] == bs[i].labels[d] {
+				j++
+			}
+		}
+		if out != "" {
+			out += ", "
+		}
+		out += `"` + bs[i].labels[d] + `": `
+		if d == nl-1 {
+			if j-i == 1 {
+				out += `{"x": ` + bs[i].x + `}`
+			} else {
+				out += "["
+				for k := i; k < j; k++ {
+					if k > i {
+						out += ", "
+					}
+					out += `{"x": ` + bs[k].x + `}`
+				}
+				out += "]"
+			}
+		} else {
+			out += "{" + renderLabelled(bs[i:j], d+1, nl, merge) + "}"
+		}
+		i = j
+	}
+	return out
+}
+
+// H_Labels: block types with 1..maxlabels labels; 2 (or 3) blocks whose label sequences
+// share symbolic prefixes, in native syntax and in the nested-label-object JSON forms
+// (merged and unmerged): same decoded value, same block sequence with the same labels.
+func H_Labels() {
+	nl := 1 + pick(vf.Param("maxlabels", 4))
+	nb := 2 + pick(vf.Param("maxblocks", 2)-1)
+	var bs []lblock
+	for i := 0; i < nb; i++ {
+		b := lblock{x: []string{"1", `"s"`, "true"}[i%3]}
+		for k := 0; k < nl; k++ {
+			if i == 0 {
+				b.labels = append(b.labels, "a")
+				continue
+			}
+			l := vf.Str(1)
+			vf.Assume(l[0] == 'a' || l[0] == 'b')
+			b.labels = append(b.labels, l)
+		}
+		bs = append(bs, b)
+	}
+	merge := pick(2) == 1
+	nsrc := ""
+	for _, b := range bs {
+		nsrc += "blk"
+		for _, l := range b.labels {
+			nsrc += ` "` + l + `"`
+		}
+		nsrc += " {\n  x = " + b.x + "\n}\n"
+	}
+	jsrc := `{"blk": {` + renderLabelled(bs, 0, nl, merge) + `}}`
+	vf.Observe("native", nsrc)
+	vf.Observe("json", jsrc)
+	nf, nd := hclsyntax.ParseConfig([]byte(nsrc), "c.hcl", hcl.InitialPos)
+	jf, jd := hcljson.Parse([]byte(jsrc), "c.json")
+	vf.Assert(!nd.HasErrors(), "native-rendering-parses")
+	vf.Assert(!jd.HasErrors(), "json-rendering-parses")
+	if nd.HasErrors() || jd.HasErrors() {
+		return
+	}
+	names := []string{"l0", "l1", "l2", "l3", "l4"}[:nl]
+	schema := &hcl.BodySchema{Blocks: []hcl.BlockHeaderSchema{{Type: "blk", LabelNames: names}}}
+	nc, ncd := nf.Body.Content(schema)
+	jc, jcd := jf.Body.Content(schema)
+	vf.Assert(ncd.HasErrors() == jcd.HasErrors(), "content-errors-coincide")
+	if !ncd.HasErrors() && !jcd.HasErrors() {
+		ok := len(nc.Blocks) == len(jc.Blocks)
+		for i := 0; ok && i < len(nc.Blocks); i++ {
+			a, b := nc.Blocks[i], jc.Blocks[i]
+			ok = a.Type == b.Type && len(a.Labels) == len(b.Labels)
+			for k := 0; ok && k < len(a.Labels); k++ {
+				ok = a.Labels[k] == b.Labels[k]
+			}
+		}
+		vf.Assert(ok, "same-block-sequence-with-same-labels")
+		vf.Reach("sequence")
+	}
+	nested := hcldec.ObjectSpec{"x": &hcldec.AttrSpec{Name: "x", Type: cty.DynamicPseudoType}}
+	var spec hcldec.Spec
+	switch pick(3) {
+	case 0:
+		spec = &hcldec.BlockObjectSpec{TypeName: "blk", LabelNames: names, Nested: nested}
+	case 1:
+		spec = &hcldec.BlockMapSpec{TypeName: "blk", LabelNames: names, Nested: &hcldec.AttrSpec{Name: "x", Type: cty.String}}
+	default:
+		withLabels := hcldec.ObjectSpec{"x": nested["x"]}
+		for i, n := range names {
+			withLabels[n] = &hcldec.BlockLabelSpec{Index: i, Name: n}
+		}
+		spec = &hcldec.BlockTupleSpec{TypeName: "blk", Nested: withLabels}
+	}
+	nv, ndiags := hcldec.Decode(nf.Body, spec, nil)
+	jv, jdiags := hcldec.Decode(jf.Body, spec, nil)
+	vf.Assert(ndiags.HasErrors() == jdiags.HasErrors(), "schema-violation-in-one-is-a-violation-in-the-other")
+	if !ndiags.HasErrors() && !jdiags.HasErrors() {
+		vf.Assert(nv.RawEquals(jv), "same-decoded-value")
+		vf.Reach("equal")
 	}
 }
